@@ -363,5 +363,9 @@ def run(chk: Check) -> None:
     scen = analyse_scenarios(str(REPO), 2 if chk.tier == "quick" else 3)
     chk.analysed["scenario_paths"] = len(scen)
     run_sticky(chk, scen)
+    # contracts of other parts of the library this check takes for granted (summaries, token model, reference grammar):
+    # the clauses that check the source against them, replayed under this property (props/contracts.py)
+    from .contracts import run_contracts
+    run_contracts(chk, prog, ['tokenizer'])
     chk.exhaustive = True
     chk.max_undecided = 0
